@@ -36,6 +36,12 @@ class ConclusionSelector(LogicalOperator, ABC):
             self._conclusion_.update(conclusions)
             self.concluded_before[not self._is_false_].add(required_output)
 
+    @property
+    def _right_outputs_are_cacheable_(self) -> bool:
+        # A right operand that selects conclusions itself exposes the selected conclusion only while it is evaluated,
+        # a cached output does not carry it.
+        return not isinstance(self.right, ConclusionSelector)
+
     def _reset_only_my_cache_(self) -> None:
         super()._reset_only_my_cache_()
         self.concluded_before = {True: SeenSet(), False: SeenSet()}
